@@ -12,6 +12,10 @@
                       (Gen.Packs, instrumented: FailClosed.toA)  →  ok <rest> <units> | fail <units> | skip
                       (skip: type not registered, or its layout has an untranscribed part)
 
+    TH <hex>          lazy decode of a StatGeneralPack table (`dataBytes` = <hex>, FailClosed.Lazy.unpack
+                      over the table layout Packs.Irregular.StatGeneralTable): three accesses, then Write
+                      →  <ok|fail>,<ok|fail>,<ok|fail> <raw|table>   (raw: Write emits the undecoded bytes)
+
   <kinds> = comma separated read kinds (bool,byte,short,…,textArr) or `-`.
   `VF`/`RF` must only be given inputs whose length fields are honest (prefixes of valid
   encodings): the as-found model materialises the zero padding of a short read.
@@ -20,6 +24,8 @@ import Golib.FailClosed.ValueA
 import Golib.FailClosed.Stream
 import Golib.FailClosed.LayoutA
 import Golib.Gen.PackLayouts
+import Golib.Packs.Irregular
+import Golib.FailClosed.Lazy
 import Driver.Common
 
 open FailClosed Prim Drv
@@ -93,6 +99,22 @@ def packReader (bs : Bytes) : Option (Layout.L × Bytes) :=
       | none => none
       | some (_, r) => if hasUnknown r || !costOK r then none else some (r, rest)
 
+/-- the column decoder of the table model: the fields `readTable` delivers, and whether it got through -/
+def tableParse (bs : Bytes) : List (String × Layout.Val) × Bool :=
+  match Packs.Irregular.StatGeneralTable.l.read "" (fun _ => 0) bs with
+  | some (o, _, _) => (o, true)
+  | none => ([], false)
+
+def tableHistory (bs : Bytes) : String :=
+  let put := fun (t : List (String × Layout.Val)) (c : String × Layout.Val) => t ++ [c]
+  let s0 : FailClosed.Lazy.Obj (List (String × Layout.Val)) := ⟨bs, []⟩
+  let r1 := FailClosed.Lazy.unpack tableParse put s0
+  let r2 := FailClosed.Lazy.unpack tableParse put r1.obj
+  let r3 := FailClosed.Lazy.unpack tableParse put r2.obj
+  let sh := fun (r : FailClosed.Lazy.Res (List (String × Layout.Val))) => if r.failed then "fail" else "ok"
+  let w := if r3.obj.raw.isEmpty then "table" else "raw"
+  s!"{sh r1},{sh r2},{sh r3} {w}"
+
 def answer (line : String) : String :=
   match line.splitOn " " with
   | ["V", hex] =>
@@ -118,6 +140,10 @@ def answer (line : String) : String :=
       | some (_, c') => s!"ok {c'.bytes.length}"
       | none => "fail"
     | _, _, _ => "bad-op"
+  | ["TH", hex] =>
+    match ofHex hex with
+    | some bs => tableHistory bs
+    | none => "bad-op"
   | ["LP", hex] =>
     match ofHex hex with
     | some bs =>
